@@ -5,11 +5,12 @@ matrix, row, full matrix; dense and sparse), built with + and +=, are
 evaluated with f.value() and compared with the formula evaluated directly
 (pure Python lists, broadcasting a length-1 term over a vector term).
 Prints  EXPR-JSON {oracle: [failing case, ...]}."""
-import json, itertools, random
+import json, itertools, random, builtins
 from cvxopt import matrix, spmatrix, sparse
 from cvxopt.modeling import variable
 
 fails = {}
+count = {'sum-index': 0}
 
 
 def fail(k, case):
@@ -114,6 +115,8 @@ def main():
     aliasing()
     lengths()
     inplace_addsub()
+    sum_and_index()
+    print('EXPR-COUNT ' + json.dumps(count))
     print('EXPR-JSON ' + json.dumps(fails))
 
 
@@ -204,6 +207,96 @@ def inplace_addsub():
                         'f': n1, 'op': opn, 'g': n2, 'value': got,
                         'expected': want, '(convex, concave)': flags,
                         'expected flags': wantflags})
+
+
+def sum_and_index():
+    """sum(f) and f[key] against the componentwise values of f: affine,
+    componentwise max / min of several functions, max / min over the
+    components of one function, sums of those, with broadcast parts; keys:
+    ints, negative ints, lists with repetitions, slices (reversed too); the
+    indexed function must not share parts with f"""
+    from cvxopt.modeling import max as mmax, min as mmin, sum as msum
+    x = variable(3, 'x')
+    y = variable(3, 'y')
+    z = variable(1, 'z')
+    x.value = matrix([1.0, -2.0, 3.0])
+    y.value = matrix([0.5, 3.0, -1.0])
+    z.value = matrix([2.0])
+
+    def funcs():
+        return {
+            'affine': lambda: 2.0 * x + y + 1.0,
+            'affine-bc': lambda: x + z + matrix([1.0, 2.0, 3.0]),
+            'max2': lambda: mmax(x, y) + x,
+            'max2-bc': lambda: mmax(x, y) + mmax(z, 1.0) + z,
+            'min2': lambda: mmin(x, y, 0.5) - y + 2.0,
+            'min2-bc': lambda: mmin(x, 2.0 * y) + mmin(z, 3.0 * z),
+            'max1': lambda: mmax(x) + z,                 # length 1
+            'min1': lambda: mmin(y) - z + 1.0,
+            'summax': lambda: msum(mmax(x, y)) + z,      # length 1
+            'summin': lambda: msum(mmin(x, y)) - 2.0,
+            'max1-only': lambda: mmax(x),
+            'summin-only': lambda: msum(mmin(x, y)),
+            'max-of-1s': lambda: mmax(z, 2.0 * z, 1.0) + z,   # length 1
+            'mixed': lambda: mmax(x, y) + msum(mmax(x, -x)) + mmax(y)}
+    for nm, mk in funcs().items():
+        f = mk()
+        fv = list(f.value())
+        try:
+            g = msum(f)
+            gv = list(g.value())
+        except Exception as e:
+            fail('sum-value', {'function': nm, 'raised': repr(e)})
+            gv = None
+        if gv is not None and (len(gv) != 1 or abs(gv[0] - builtins.sum(fv)) > 1e-9):
+            fail('sum-value', {'function': nm, 'f.value()': fv,
+                               'sum(f).value()': gv})
+        if gv is not None and (g._isconvex(), g._isconcave()) != (
+                f._isconvex(), f._isconcave()):
+            fail('sum-value', {'function': nm, 'curvature': 'changed'})
+        n = len(fv)
+        keys = [0, -1, [0], [0, 0], slice(None), slice(None, None, -1),
+                [n - 1, 0, n - 1], slice(0, n, 2)]
+        for key in keys:
+            want = [fv[i] for i in (range(n)[key] if isinstance(key, slice)
+                                    else [key] if isinstance(key, int)
+                                    else key)]
+            try:
+                h = f[key]
+                hv = list(h.value())
+            except Exception as e:
+                fail('index-value', {'function': nm, 'key': repr(key),
+                                     'raised': repr(e)})
+                continue
+            count['sum-index'] += 1
+            if len(hv) != len(want) or any(abs(u - v) > 1e-9 for u, v in
+                                           zip(hv, want)):
+                fail('index-value', {'function': nm, 'key': repr(key),
+                                     'f.value()': fv, 'f[key].value()': hv,
+                                     'expected': want})
+                continue
+            if (h._isconvex(), h._isconcave()) != (f._isconvex(),
+                                                   f._isconcave()):
+                fail('index-value', {'function': nm, 'key': repr(key),
+                                     'curvature': 'changed'})
+            # no sharing: an in-place operation on f[key] leaves f alone
+            h *= 2.0
+            h += 1.0
+            if any(abs(u - v) > 1e-12 for u, v in zip(list(f.value()), fv)):
+                fail('index-fresh', {'function': nm, 'key': repr(key),
+                                     'f.value() before': fv,
+                                     'after in-place ops on f[key]':
+                                     list(f.value())})
+                f = mk()
+        try:
+            f[[]]
+            fail('index-refuses', {'function': nm, 'key': '[]',
+                                   'accepted': True})
+        except ValueError:
+            pass
+        except Exception as e:
+            fail('index-refuses', {'function': nm, 'key': '[]',
+                                   'raised': repr(e)})
 
 
 def aliasing():
